@@ -300,6 +300,20 @@ func checkC02(w *World, r *Recorder) propInfo {
 	importRules(w, r, checkC19, "C02-V7", func(o *Oblig) bool {
 		return (o.Rule == "C19-Y1" || o.Rule == "C19-Y2") && strings.HasPrefix(o.Construct, "UnmarshalCOSE#")
 	})
+	// V8: the payload bytes Verify checks are the bytes that were received:
+	// UnmarshalCOSE hands the envelope's own Payload slice to the claims
+	// decoder, so nothing reachable from the claims decoders may write the
+	// buffer they are given (a decoder that "normalises" its input in place
+	// turns an altered payload back into the signed one before verification)
+	for _, n := range []string{"DecodeClaimsFromCBOR", "DecodeAndValidateClaimsFromCBOR", "DecodeClaimsFromJSON", "DecodeAndValidateClaimsFromJSON"} {
+		fn := w.Root.Func(n)
+		if fn == nil {
+			r.Undecide("C02-V8", n, "-", "decoder not found")
+			continue
+		}
+		c18NoWrites(w, r, "C02-V8", apiFunc{fn, n, true})
+	}
+	r.Floor("C02-V8", 4)
 	auditCoseVerify(w, r, "C02-audit")
 	auditCoseUnmarshal(w, r, "C02-audit")
 	r.Floor("C02-V1", 1)
@@ -560,6 +574,17 @@ func checkC03(w *World, r *Recorder) propInfo {
 					ok = true
 				}
 			}
+			// an envelope without payload or with an empty signature is what
+			// go-cose's own Verify rejects first (ErrMissingPayload /
+			// ErrEmptySignature; audited from its source in the thorough tier): a
+			// guard that fails on exactly these states refuses nothing go-cose
+			// would have accepted, and no token this library signs looks like that
+			if b, has := p.St.atoms["nil("+recv+"."+w.envelopeField()+".Payload)"]; has && b {
+				ok = true
+			}
+			if set, has := p.St.terms["len("+recv+"."+w.envelopeField()+".Signature)"]; has && set.equal(iset{{0, 0}}) {
+				ok = true
+			}
 			r.Check(ok, "C03-S6", pkey, w.InstrPos(p.Ret), "failure follows a go-cose error (or the missing-envelope / empty-protected-header guard)",
 				"Verify returns an error although none of go-cose's calls has failed on this path: a correctly signed token can be refused (verification with the matching key must succeed)")
 		}
@@ -567,6 +592,111 @@ func checkC03(w *World, r *Recorder) propInfo {
 			r.Refute("C03-S6", "Verify#fails", w.FnPos(fn), "Verify has no failing path at all")
 		}
 	}
+	// S9: signing with a supported algorithm and a valid claims-set produces a
+	// token: Sign / ValidateAndSign fail only where a call they made (Validate,
+	// the claims encoder, go-cose's Sign / MarshalCBOR) returned an error or no
+	// claims are attached. A failing path that follows none of these is a guard
+	// on the signer's algorithm identifier; it must exclude all seven supported
+	// identifiers (ES256/384/512, EdDSA, PS256/384/512), or be the library's
+	// own verdict on the identifier's name (strings.Contains on alg.String()
+	// with a literal that occurs in none of the seven names).
+	for _, name := range []string{"Sign", "ValidateAndSign"} {
+		fn, sm := evidenceMethod(w, r, "C03-S", name)
+		if fn == nil {
+			continue
+		}
+		recv := fn.Params[0].Name()
+		supported := []int64{-7, -35, -36, -8, -37, -38, -39}
+		names := []string{"ES256", "ES384", "ES512", "EdDSA", "PS256", "PS384", "PS512"}
+		for _, p := range sm.Paths {
+			if p.Ret == nil {
+				continue
+			}
+			if _, nl := errOf(p, errIndex(fn)); nl != 1 {
+				continue
+			}
+			pkey := name + "#fails:" + c08PathKey(p)
+			ok := false
+			why := ""
+			if b, has := p.St.atoms["nil("+recv+".Claims)"]; has && b {
+				ok = true
+			}
+			for _, ev := range p.St.events {
+				if ev.Kind != "call" {
+					continue
+				}
+				ci, isCall := ev.Instr.(ssa.CallInstruction)
+				if !isCall {
+					continue
+				}
+				rs := ci.Common().Signature().Results()
+				if rs.Len() == 0 || !isErrorType(rs.At(rs.Len()-1).Type()) {
+					continue
+				}
+				if cn := calleeName(ci.Common()); cn == "errors.New" || cn == "fmt.Errorf" {
+					continue // building the error to return is not a failed call
+				}
+				res := ev.Result
+				if res.Kind == KTuple && len(res.Elems) > 0 {
+					res = res.Elems[len(res.Elems)-1]
+				}
+				if p.St.NilOf(res) == 1 {
+					ok = true
+				}
+			}
+			if !ok {
+				// a guard on the algorithm identifier
+				for a, b := range p.St.atoms {
+					if b && strings.HasPrefix(a, "strings.Contains((go-cose.Algorithm).String(") {
+						lit := a[strings.LastIndex(a, ",")+1:]
+						lit = strings.Trim(strings.TrimSuffix(lit, ")"), "\"")
+						hit := lit == ""
+						for _, n := range names {
+							if lit != "" && strings.Contains(n, lit) {
+								hit = true
+							}
+						}
+						if !hit {
+							ok = true
+						} else {
+							why = "the name guard " + a + " matches a supported algorithm's name"
+						}
+					}
+				}
+			}
+			if !ok {
+				algSeen := false
+				excluded := true
+				for t, set := range p.St.terms {
+					if strings.HasPrefix(t, "go-cose.Signer.Algorithm(") && !strings.Contains(t, "#") {
+						algSeen = true
+						for _, id := range supported {
+							taken := set.contains(id)
+							// offsets computed from the identifier, (K-alg): the path
+							// constrains them, which constrains the identifier
+							for t2, set2 := range p.St.terms {
+								if strings.HasPrefix(t2, "(") && strings.HasSuffix(t2, "-"+t+")") {
+									if k, err := parseInt(t2[1 : len(t2)-len(t)-2]); err == nil && !set2.contains(k-id) {
+										taken = false
+									}
+								}
+							}
+							if taken {
+								excluded = false
+								why = fmt.Sprintf("the path is taken with algorithm identifier %d (%s ∈ %s)", id, t, set)
+							}
+						}
+					}
+				}
+				if algSeen && excluded {
+					ok = true
+				}
+			}
+			r.Check(ok, "C03-S9", pkey, w.InstrPos(p.Ret), "failure follows an error of a call made on the path, the missing-claims guard, or a guard that excludes every supported algorithm",
+				name+" fails although nothing it called has failed: a valid claims-set and a supported signer do not produce a token ("+why+")")
+		}
+	}
+	r.Floor("C03-S9", 2)
 	// S5: the payload kept in the signing Evidence and the token returned are fresh memory (a reused buffer would let a later encode change the signed payload)
 	for _, n := range []string{"EncodeClaimsToCBOR", "ValidateAndEncodeClaimsToCBOR"} {
 		if fn := w.Root.Func(n); fn != nil {
@@ -771,6 +901,16 @@ func checkC19(w *World, r *Recorder) propInfo {
 		sub := NewRecorder(r.Property)
 		c15Walker(w, sub, n)
 		remap(r, sub, map[string]string{"C15-H4": "C19-Y9"})
+	}
+	// Y14: … and the payload it signs is a well-formed map: the length header
+	// the serialiser writes follows the CBOR table for every entry count (a
+	// header that disagrees at one count — 24 entries written with the 23-entry
+	// form — gives a token that signs and verifies but whose payload does not
+	// decode, so the attached claims are not the decoding of what was signed)
+	if sf := w.encMapType("CBOR"); sf != nil {
+		sub := NewRecorder(r.Property)
+		c15Writer(w, sub, sf)
+		remap(r, sub, map[string]string{"C15-H1": "C19-Y14"})
 	}
 	// Y12: … and the plain encoder flattens an embedded base profile into the
 	// extension's map only as long as the base type's own codec methods are the
